@@ -2,6 +2,8 @@
 import Reamber.Util.Json
 import Reamber.Model.O2J
 import Reamber.Spec.O2J
+import Reamber.Model.O2JX
+import Reamber.Lemmas.O2JEncode
 
 open Lean Reamber.J
 
@@ -42,6 +44,30 @@ def levelToJson (l : LevelOut) : Json :=
        ("holds", listToJson noteOutToJson (l.notes.filter (fun o => !isHit o))),
        ("bpms", listToJson (fun (b : BpmOut) => Json.arr #[ratToJson b.pos, ratToJson b.bpm, ratToJson b.time]) l.bpms)]
 
+def xtToJson : XT → Json
+  | .fin q => ratToJson q
+  | .nan => Json.str "nan"
+
+/-- a tempo value of the extended model: a rational as `[num, den]`, else `{"inf": neg}` / `"nan"` -/
+def tempoXToJson : F32 → Json
+  | .fin q => ratToJson q
+  | .inf n => obj [("inf", Json.bool n)]
+  | .nan => Json.str "nan"
+
+def noteOutXToJson (o : NoteOutX) : Json :=
+  match o.note with
+  | .hit s => Json.arr #[ratToJson s.pos, intToJson s.col, natToJson s.vol, natToJson s.pan, xtToJson o.time]
+  | .hold h t => Json.arr #[ratToJson h.pos, ratToJson t.pos, intToJson h.col, natToJson h.vol, natToJson h.pan,
+                            xtToJson o.time, optToJson xtToJson o.len]
+
+def isHitX (o : NoteOutX) : Bool := match o.note with | .hit _ => true | _ => false
+
+/-- same shape as `levelToJson`; times may be `"nan"`, tempo values may be `{"inf": …}` / `"nan"` -/
+def levelXToJson (l : LevelOutX) : Json :=
+  obj [("hits", listToJson noteOutXToJson (l.notes.filter isHitX)),
+       ("holds", listToJson noteOutXToJson (l.notes.filter (fun o => !isHitX o))),
+       ("bpms", listToJson (fun (b : BpmOutX) => Json.arr #[ratToJson b.pos, tempoXToJson b.bpm, xtToJson b.time]) l.bpms)]
+
 def resToJson {α} (f : α → Json) : Except Err α → Json
   | .ok v => okJson (f v)
   | .error e => errJson e.toString
@@ -69,6 +95,67 @@ def specFile (bs : List Nat) : Json :=
          ("set", resToJson (fun (f : FileOut) => listToJson levelToJson f.levels) (Spec.specSet bs)),
          ("init_positive", Json.bool (match init with | some q => decide (0 < q) | none => false)), ("levels", lv)]
 
+/-! ### the encoder model (`Lemmas/O2JEncode.lean`, core only): abstract chart in, bytes out -/
+
+def f32BitsOf? (j : Json) : Except String F32Bits :=
+  match j with
+  | Json.arr #[a, b, c] => do .ok ⟨← natOf? a, ← natOf? b, ← natOf? c⟩
+  | _ => .error "float32 expected [s, e, m]"
+
+def kindOf? (n : Nat) : Except String Kind :=
+  if n = 0 then .ok .hit else if n = 2 then .ok .head else if n = 3 then .ok .tail else .error "note type 0/2/3 expected"
+
+def aslotOf? (j : Json) : Except String ASlot :=
+  match j with
+  | Json.null => .ok .empty
+  | Json.arr #[en, k, v, p] => do .ok (.note (← intOf? en) (← kindOf? (← natOf? k)) (← natOf? v) (← natOf? p))
+  | _ => .error "slot expected null or [enabled, type, volume, pan]"
+
+def tslotOf? (j : Json) : Except String TSlot :=
+  match j with
+  | Json.null => .ok none
+  | Json.arr #[a, b, c] => do .ok (some ((← natOf? a), (← natOf? b), (← natOf? c)))
+  | _ => .error "tempo slot expected null or [s, e, m]"
+
+def apkgOf? (j : Json) : Except String APkg := do
+  let m ← getInt j "m"
+  let k ← getStr j "k"
+  if k = "n" then .ok (.notes m (← getNat j "c") (← getArr aslotOf? j "sl"))
+  else if k = "t" then .ok (.tempo m (← getArr tslotOf? j "sl"))
+  else .error "package kind n/t expected"
+
+def aheaderOf? (j : Json) : Except String AHeader := do
+  .ok { songId := ← getInt j "song_id", signature := ← getArr natOf? j "signature",
+        encodeVersion := ← f32BitsOf? (← field j "encode_version"), genre := ← getInt j "genre",
+        bpm := ← f32BitsOf? (← field j "bpm"), level := ← getArr intOf? j "level",
+        eventCount := ← getArr intOf? j "event_count", noteCount := ← getArr intOf? j "note_count",
+        measureCount := ← getArr intOf? j "measure_count", oldEncodeVersion := ← getInt j "old_encode_version",
+        oldSongId := ← getInt j "old_song_id", oldGenre := ← getArr natOf? j "old_genre", bmpSize := ← getInt j "bmp_size",
+        oldFileVersion := ← getInt j "old_file_version", title := ← getArr natOf? j "title",
+        artist := ← getArr natOf? j "artist", creator := ← getArr natOf? j "creator", ojmFile := ← getArr natOf? j "ojm_file",
+        coverSize := ← getInt j "cover_size", duration := ← getArr intOf? j "duration",
+        noteOffset := ← getArr intOf? j "note_offset", coverOffset := ← getInt j "cover_offset" }
+
+def tslotOk : TSlot → Bool
+  | none => true
+  | some (s, e, m) => decide (s < 2) && decide (e < 255) && decide (m < 2 ^ 23) && (decide (e ≠ 0) || decide (m ≠ 0))
+
+/-- the tempo part of `AChart.Valid`: every tempo slot empty or a finite non-zero float -/
+def tempoOk (c : AChart) : Bool :=
+  c.levels.all (fun l => l.all (fun p => match p with | .tempo _ sl => sl.all tslotOk | _ => true))
+
+/-- `aTimeline` of the abstract chart = `specSet` of its bytes (theorem `specSet_encodeChart`, here by evaluation; only
+claimed for charts whose tempo floats are finite and non-zero) -/
+def timelineEq (c : AChart) : Bool :=
+  if !tempoOk c then true else
+  match c.header.bpm.val with
+  | .fin q =>
+    match aTimeline q c, Spec.specSet (encodeChart c) with
+    | .ok a, .ok b => decide (a = b)
+    | .error _, .error _ => true
+    | _, _ => false
+  | _ => true
+
 def handle (op : String) (j : Json) : Except String Json := do
   match op with
   | "c07.run" =>
@@ -76,7 +163,18 @@ def handle (op : String) (j : Json) : Except String Json := do
     let m := readFile bs
     .ok (obj [("model", resToJson (fun (f : FileOut) => obj [("header", headerToJson f.header),
                                                              ("levels", listToJson levelToJson f.levels)]) m),
+              ("modelx", resToJson (fun (f : FileOutX) => obj [("header", headerToJson f.header),
+                                                              ("levels", listToJson levelXToJson f.levels)]) (readFileX bs)),
+              ("xrefines", Json.bool (refinesB bs)),
               ("spec", specFile bs)])
+  | "c07.encode" =>
+    let hdr ← aheaderOf? (← field j "hdr")
+    let lv ← getArr (arrOf? apkgOf?) j "levels"
+    let tail ← getArr natOf? j "tail"
+    let c : AChart := ⟨hdr, lv, tail⟩
+    let bs := encodeChart c
+    .ok (okJson (obj [("bytes", listToJson natToJson bs), ("wf", Json.bool (Spec.wellFormed bs)),
+                      ("timeline_eq", Json.bool (timelineEq c))]))
   | "c07.f32" =>
     let bs ← getArr natOf? j "b"
     .ok (okJson (f32ToJson (decodeF32 bs)))
